@@ -68,7 +68,8 @@ CarryCDX(n, v) ==
              ELSE IF FirstOf(Sq(n, "primary_purpose")) \in CDXPurposes(v) THEN FirstOf(Sq(n, "primary_purpose")) ELSE 0,
    hashes |-> {p \in Rng(Sq(n, "hashes")) : p[1] \in CDXAlgos},
    purl |-> MapGet(n, "identifiers", 1),
-   cpe |-> IF MapHas(n, "identifiers", 3) THEN MapGet(n, "identifiers", 3) ELSE MapGet(n, "identifiers", 2),
+   \* one CPE per component: the 2.3 form when it has a value, else the 2.2 form
+   cpe |-> IF MapGet(n, "identifiers", 3) # "" THEN MapGet(n, "identifiers", 3) ELSE MapGet(n, "identifiers", 2),
    lics |-> BagOf(Sq(n, "licenses")),
    refs |-> RefsCarried(n, CDXRefs(v), TRUE, CDXAlgos)]
 \* in the CycloneDX class: kind FILE <=> component type file, i.e. a package node is not of purpose FILE
